@@ -62,11 +62,17 @@ class Geometry2d:
 
 def read_range_file(file, offset, length):
     file.seek(offset)
-    return file.read(length)
+    data = file.read(length)
+    if len(data) != length:
+        raise IOError(f"Short read: wanted {length} bytes at offset {offset}, got {len(data)}")
+    return data
 
 
 def read_range_blob(file, offset, length):
-    return file.download_blob(offset=offset, length=length).readall()
+    data = file.download_blob(offset=offset, length=length).readall()
+    if len(data) != length:
+        raise IOError(f"Short read: wanted {length} bytes at offset {offset}, got {len(data)}")
+    return data
 
 
 def generate_fake_seismic(n_ilines, n_xlines, n_samples, min_iline=0, min_xline=0):
